@@ -670,17 +670,17 @@ def vivTerms (V : Viv) (segs : List Seg) : List VTerm := segs.filterMap (Seg.vte
 
 /- ---- rational brackets of the value of a term (what the driver compares the observed term with) -/
 
-/-- `(lo, hi)` with `lo ≤ √q ≤ hi`, `hi - lo ≤ 1 / (q.den * 2^k)`, and `lo = hi` when `q` is the square of a rational
-(for `q ≥ 0`):  √(n/d) = √(n·d)/d, integer square root of `n·d·4^k`. -/
-def sqrtBracket (k : Nat) (q : Rat) : Rat × Rat :=
-  let n : Nat := q.num.toNat * q.den * 4 ^ k
+/-- `(lo, hi)` with `lo ≤ √q ≤ hi`, `hi - lo ≤ 1 / (q.den * m)`, and `lo = hi` when `q·m²` is the square of a rational
+with denominator `q.den` (for `q ≥ 0`, `m > 0`):  √(n/d) = √(n·d·m²)/(d·m), integer square root of `n·d·m²`. -/
+def sqrtBracket (m : Nat) (q : Rat) : Rat × Rat :=
+  let n : Nat := q.num.toNat * q.den * (m * m)
   let s : Nat := Nat.sqrt n
-  let den : Rat := ((q.den * 2 ^ k : Nat) : Rat)
+  let den : Rat := ((q.den * m : Nat) : Rat)
   if s * s = n then ((s : Rat) / den, (s : Rat) / den) else ((s : Rat) / den, ((s + 1 : Nat) : Rat) / den)
 
 /-- bracket, in units of `1/unit` seconds, of the value of a term: floor of the lower bound, ceiling of the upper one -/
-def termBracket (unit : Nat) (k : Nat) (t : VTerm) : Int × Int :=
-  let (lo, hi) := sqrtBracket k t.rad
+def termBracket (unit : Nat) (m : Nat) (t : VTerm) : Int × Int :=
+  let (lo, hi) := sqrtBracket m t.rad
   (((lo + t.hsum) / 1000 * (unit : Rat)).floor, ((hi + t.hsum) / 1000 * (unit : Rat)).ceil)
 
 end SgVerif.C24
